@@ -4,6 +4,11 @@ import json, os
 ROOT = os.path.dirname(os.path.dirname(os.path.abspath(__file__)))
 props = [json.loads(l) for l in open(ROOT + "/properties.jsonl")]
 CLAIMED = {
+ "C24": dict(
+   technique="Lean 4 proof by functional (mutual) induction that the modelled evaluate protocol returns the denotational value; correspondence of the model with the real point evaluation on generated expressions",
+   text="evalI transcribes every `evaluate` method (component threading, StackDict pushes/pops, derivative tuples through Grad/Indexed/ListTensor, conditions, zero-division); eval is the denotational semantics used by all other properties. C24_sound / C24_sound_open / C24_sound_grad (52-case mutual induction, no bound on expression size, any field K, any valuation): whenever evaluation returns a value it is the denotation. evalI is run against `expr(x, mapping, component)` on type-directed random expressions (index notation with re-used Index objects, component/list tensors, slices, conditionals incl. tensor-valued, math functions, compound algebra, derivatives of mapped callables) with exact rational data, and the implementation's answer is additionally compared with the denotation (property oracle). The TypeError on tensor-valued conditionals found this way was repaired by a fix: commit.",
+   note="Trusted: Lean kernel; harness (gen.py, uflio.py, props/c24.py), Drivers/Expr.lean; float arithmetic and math library functions are compared to 1e-9 only; expand_derivatives runs before evaluate in the implementation (its own correctness is C03/C06). Domain: no free indices, component of the expression's rank, no restrictions; completeness (no spurious raise) is covered by the correspondence/oracle only, not by a theorem.",
+   design="5 C24"),
  "C19": dict(
    technique="Lean 4 proof by mutual structural induction (traversals, map_expr_dag, DAGTraverser memoisation) on a hand model tied by correspondence on random DAGs; kernel `decide` over dispatch tables regenerated from the live classes",
    text="For every labelled tree (any size/sharing) and every handler: unique post traversal yields each distinct subexpression exactly once with operands before users (C19_post_exactly_once, C19_post_operands_first); unique pre traversal exactly once (C19_pre_exactly_once, worklist invariant + fuel sufficiency); cut-off variant (C19_cutoff_post); map_expr_dag = recursive application to the tree with and without cut-offs (C19_map_dag_eq_tree); DAGTraverser memoisation keyed on (node, kwargs) is sound for any shared cache (C19_dag_traverser_memo_sound). Dispatch: for all 26 MultiFunction/Transformer subclasses x 167 types and 15 DAGTraverser subclasses, the table the class computed is the nearest-ancestor table (decide over Gen/Dispatch.lean, regenerated each run). The models are run against the real traversal/map/DAGTraverser code on random DAGs with shared subexpressions at different depths.",
